@@ -76,8 +76,16 @@ def run(ctx):
                           dict(level=l, variant="heur", ops=ops, build="ref, hooks on", driver="tools/harness/drv_sign.c"))
             note("crash")
         # interleave stdout result lines and stderr matrices: both are in program order within their stream
-        mats_s = re.findall(r"verif-mat: sign (\S+) (\S+) (\S+) (\S+)", r["stderr_full"])
-        mats_v = re.findall(r"verif-mat: verif (\S+) (\S+) (\S+) (\S+)", r["stderr_full"])
+        # stderr is in program order: split it at the driver's marks; one entry per sign / verify* call
+        mats_s, mats_v = [], []
+        for chunk in r["stderr_full"].split("drv-mark: ")[1:]:
+            kind = chunk.split("\n", 1)[0].strip()
+            if kind == "sign":
+                m = re.findall(r"verif-mat: sign (\S+) (\S+) (\S+) (\S+)", chunk)
+                mats_s.append(m[-1] if m else None)
+            else:
+                m = re.findall(r"verif-mat: verif (\S+) (\S+) (\S+) (\S+)", chunk)
+                mats_v.append(m[-1] if m else None)
         si = vi = 0
         idx = -1
         cur = None
@@ -92,9 +100,10 @@ def run(ctx):
                 cat = list(cur["meta"].get("catalogue", []))
                 ci = 0
                 awaiting_first_verify = True
+                cur["M"] = mats_s[si] if si < len(mats_s) else None
+                si += 1
                 if cur["ret"] == 1:
-                    cur["M"] = mats_s[si] if si < len(mats_s) else None
-                    si += 1
+                    pass
                 elif cur["ret"] == 0:
                     note("L%d:explicit-failure" % l)
                 else:
@@ -142,6 +151,9 @@ def run(ctx):
                     # an entry of the binding / tampering catalogue
                     what = cat[ci] if ci < len(cat) else ("?", 0)
                     ci += 1
+                    if what[0] in ("c0_adjust", "e0_adjust") and cur.get("enc") and int(cur["enc"][1]) > int(cur["enc"][0]) - int(cur["enc"][1]):
+                        note("tamper:%s:dead-field(a>n)" % what[0])      # the verifier does not read the field when a > n: not isogeny-altering
+                        continue
                     note("tamper:%s:%s" % (what[0], "accepted" if val == 1 else "rejected"))
                     ctx.case(("tamper", l, what[0], val))
                     if val == 1:
